@@ -858,6 +858,100 @@ example : DocC retEx payDoc ∧
       some (some ⟨1102, 2⟩, some ⟨2570, 2⟩) :=
   ⟨payDoc_class, by decide, by decide, by decide, by decide⟩
 
+/-- **the explicit bound** — for a document of the class `DocC`, every presented total is within
+half a minor unit (the presentation rounding) plus `dueW d G` half-units of the working precision
+(all other rounding points; `dueW d G` is the largest of the weights) of the exact rational value -/
+theorem presented_explicit_bound (ret : String → Bool) (d : Doc) (out : Out) (t : Totals) (hd : DocC ret d)
+    (hcalc : calculate exactOps d = .ok out) (ht : out.totals = some t) :
+    |t.sum.toRat - (exactQ d).sum| ≤ halfUlp d.c + (dueW d (groupsT t) : ℚ) * halfUlp (d.c + 2) ∧
+    |t.total.toRat - (exactQ d).total| ≤ halfUlp d.c + (dueW d (groupsT t) : ℚ) * halfUlp (d.c + 2) ∧
+    |t.tax.toRat - (exactQ d).tax| ≤ halfUlp d.c + (dueW d (groupsT t) : ℚ) * halfUlp (d.c + 2) ∧
+    |t.totalWithTax.toRat - (exactQ d).totalWithTax| ≤ halfUlp d.c + (dueW d (groupsT t) : ℚ) * halfUlp (d.c + 2) ∧
+    |t.payable.toRat - (exactQ d).payable| ≤ halfUlp d.c + (dueW d (groupsT t) : ℚ) * halfUlp (d.c + 2) ∧
+    (∀ x, t.discount = some x →
+      |x.toRat - (exactQ d).discount| ≤ halfUlp d.c + (dueW d (groupsT t) : ℚ) * halfUlp (d.c + 2)) ∧
+    (∀ x, t.charge = some x →
+      |x.toRat - (exactQ d).charge| ≤ halfUlp d.c + (dueW d (groupsT t) : ℚ) * halfUlp (d.c + 2)) ∧
+    (∀ x, t.advances = some x →
+      |x.toRat - (exactQ d).advances| ≤ halfUlp d.c + (dueW d (groupsT t) : ℚ) * halfUlp (d.c + 2)) ∧
+    (∀ x, t.due = some x →
+      |x.toRat - (exactQ d).due| ≤ halfUlp d.c + (dueW d (groupsT t) : ℚ) * halfUlp (d.c + 2)) := by
+  obtain ⟨w, htr, _, b1, b2, b3, b4, b5, b6, b7, b8, b9⟩ := calc_eq_spec ret d out t hd hcalc ht
+  set G := groupsT t
+  have m1 : twtW d G ≤ dueW d G := Nat.le_add_right _ _
+  have m2 : advW d G ≤ dueW d G := Nat.le_add_left _ _
+  have m3 : totalW d ≤ twtW d G := Nat.le_add_right _ _
+  have m4 : taxW d G ≤ twtW d G := Nat.le_add_left _ _
+  have m5 : sumW d.lines ≤ totalW d := by
+    unfold totalW
+    have : sumW d.lines ≤ sumW d.lines * (1 + d.discounts.length + d.charges.length) :=
+      Nat.le_mul_of_pos_right _ (by omega)
+    omega
+  have m6 : adjW (sumW d.lines) d.discounts.length ≤ totalW d := by
+    unfold totalW adjW
+    have : sumW d.lines * (1 + d.discounts.length + d.charges.length) =
+        sumW d.lines + d.discounts.length * sumW d.lines + sumW d.lines * d.charges.length := by ring
+    rw [this, Nat.mul_add, Nat.mul_one]
+    omega
+  have m7 : adjW (sumW d.lines) d.charges.length ≤ totalW d := by
+    unfold totalW adjW
+    have : sumW d.lines * (1 + d.discounts.length + d.charges.length) =
+        sumW d.lines + sumW d.lines * d.discounts.length + d.charges.length * sumW d.lines := by ring
+    rw [this, Nat.mul_add, Nat.mul_one]
+    omega
+  have h0 := halfUlp_nonneg (d.c + 2)
+  have hs : ∀ (a : Amount) (q : ℚ) (n : ℕ), n ≤ dueW d G → |a.toRat - q| ≤ (n : ℚ) * halfUlp (d.c + 2) →
+      |(a.rescaleX d.c).toRat - q| ≤ halfUlp d.c + (dueW d G : ℚ) * halfUlp (d.c + 2) := by
+    intro a q n hle h
+    have h1 := rescaleX_err a d.c
+    have hn : (n : ℚ) ≤ (dueW d G : ℚ) := by exact_mod_cast hle
+    have h2 := mul_le_mul_of_nonneg_right hn h0
+    have e : (a.rescaleX d.c).toRat - q = ((a.rescaleX d.c).toRat - a.toRat) + (a.toRat - q) := by ring
+    rw [e]
+    refine le_trans (abs_add_le _ _) ?_
+    linarith
+  have ho : ∀ (o : Option Amount) (q : ℚ) (n : ℕ), n ≤ dueW d G → |optQ o - q| ≤ (n : ℚ) * halfUlp (d.c + 2) →
+      ∀ x, o.map (exactOps.rescale · d.c) = some x →
+        |x.toRat - q| ≤ halfUlp d.c + (dueW d G : ℚ) * halfUlp (d.c + 2) := by
+    intro o q n hle h x hx
+    simp only [Option.map_eq_some_iff] at hx
+    obtain ⟨y, hy, rfl⟩ := hx
+    rw [hy] at h
+    exact hs y q n hle h
+  rw [htr]
+  refine ⟨hs _ _ _ (by omega) b1, hs _ _ _ (by omega) b4, hs _ _ _ (by omega) b5, hs _ _ _ (by omega) b6,
+    hs _ _ _ (by omega) b7, ho _ _ _ (by omega) b2, ho _ _ _ (by omega) b3, ho _ _ _ (by omega) b8, ?_⟩
+  intro x hx
+  have hx' : w.due.map (exactOps.rescale · d.c) = some x := hx
+  simp only [Option.map_eq_some_iff] at hx'
+  obtain ⟨y, hy, rfl⟩ := hx'
+  exact hs y _ _ (Nat.le_refl _) (b9 y hy)
+
+/-- the same with hypotheses the model driver evaluates (`Spec.C01`: `inDocC`, `docWeight`): this is
+the statement the check also tests on the real library's output for every generated document that
+falls in the class (`harness/props/c01`, counters `error-bound:in-proved-class…`) -/
+theorem decided_class_bound (d : Doc) (out : Out) (t : Totals) (hcls : inDocC d = true)
+    (hcalc : calculate exactOps d = .ok out) (ht : out.totals = some t) :
+    |t.sum.toRat - (exactQ d).sum| ≤ halfUlp d.c + (docWeight d : ℚ) * halfUlp (d.c + 2) ∧
+    |t.total.toRat - (exactQ d).total| ≤ halfUlp d.c + (docWeight d : ℚ) * halfUlp (d.c + 2) ∧
+    |t.tax.toRat - (exactQ d).tax| ≤ halfUlp d.c + (docWeight d : ℚ) * halfUlp (d.c + 2) ∧
+    |t.totalWithTax.toRat - (exactQ d).totalWithTax| ≤ halfUlp d.c + (docWeight d : ℚ) * halfUlp (d.c + 2) ∧
+    |t.payable.toRat - (exactQ d).payable| ≤ halfUlp d.c + (docWeight d : ℚ) * halfUlp (d.c + 2) ∧
+    (∀ x, t.discount = some x →
+      |x.toRat - (exactQ d).discount| ≤ halfUlp d.c + (docWeight d : ℚ) * halfUlp (d.c + 2)) ∧
+    (∀ x, t.charge = some x →
+      |x.toRat - (exactQ d).charge| ≤ halfUlp d.c + (docWeight d : ℚ) * halfUlp (d.c + 2)) ∧
+    (∀ x, t.advances = some x →
+      |x.toRat - (exactQ d).advances| ≤ halfUlp d.c + (docWeight d : ℚ) * halfUlp (d.c + 2)) ∧
+    (∀ x, t.due = some x →
+      |x.toRat - (exactQ d).due| ≤ halfUlp d.c + (docWeight d : ℚ) * halfUlp (d.c + 2)) := by
+  rw [docWeight_eq d out t hcalc ht]
+  exact presented_explicit_bound (retOf d) d out t (inDocC_sound d hcls) hcalc ht
+
+/-- non-vacuity: the examples are in the decided class, with the weights computed above -/
+example : inDocC adjDoc = true ∧ inDocC payDoc = true ∧ inDocC surDoc = true ∧
+    docWeight adjDoc = 49 ∧ docWeight payDoc = 99 ∧ docWeight surDoc = 5 := by decide
+
 /-! ## the presented rows -/
 
 /-- every line of a document of the class `DocA` is shown (`Shows`: unchanged, or rounded half away
